@@ -415,7 +415,14 @@ package corerad
 //@ macro rdnssProblem(p, x, y) = p.Details == "" && ((p.Field == "rdnss_lifetime" && x.Lifetime != y.Lifetime) || (p.Field == "rdnss_servers" && serversDiffer(x, y)))
 //@ macro sameOrdinal(want, i, got, j, tag) = isType(want[i], tag) && isType(got[j], tag) && countTag(arr(want), i, tagOf(tag)) == countTag(arr(got), j, tagOf(tag))
 
+//@ macro rdWit(w, ps, x, y, i) = (x.Lifetime != y.Lifetime ==> witOK(ps, w, "rdnss_lifetime", i, 0, "")) && (serversDiffer(x, y) ==> witOK(ps, w, "rdnss_servers", i, 0, ""))
 //@ func checkRDNSS
+//@   ghost local wit (Array Int (Array Int (Array Int Int)))
+//@   at call push(pp, pfield, pdetails, pw, pg) when pfield != "rdnss_count": ghost.wit = wit3Set(ghost.wit, pfield, rangeindex1 + 1, 0, len(star(pp)) - 1)
+//@   loop 1 invariant W1 [C12]: forall(i, 0, rangeindex1 + 1, rdWit(ghost.wit, ps, dnsA[i], dnsB[i], i))
+//@   loop 2 invariant W2 [C12]: forall(i3, 0, rangeindex1 + 1, rdWit(ghost.wit, ps, dnsA[i3], dnsB[i3], i3))
+//@   loop 2 invariant W3 [C12]: dnsA[i].Lifetime != dnsB[i].Lifetime ==> witOK(ps, ghost.wit, "rdnss_lifetime", i, 0, "")
+//@   ensures E4 [C12]: len(dnsA) > 0 && len(dnsA) == len(dnsB) ==> forall(i, 0, len(dnsA), (dnsA[i].Lifetime != dnsB[i].Lifetime ==> hasProblem(result, "rdnss_lifetime", "")) && (serversDiffer(dnsA[i], dnsB[i]) ==> hasProblem(result, "rdnss_servers", "")))
 //@   requires P1: optsOK(want) && optsOK(got)
 //@   assigns new heap(corerad.problems), new mem(corerad.problem), new mem(*ndp.RecursiveDNSServer)
 //@   loop 1 invariant D0 [C12]: 0 <= rangeindex1 + 1 && rangeindex1 + 1 <= len(dnsA) && len(dnsA) == len(dnsB) && len(dnsA) > 0 && forall(i, 0, len(dnsA), dnsA[i] != nil && dnsB[i] != nil)
@@ -432,7 +439,14 @@ package corerad
 //@ macro namesDiffer(x, y) = len(x.DomainNames) != len(y.DomainNames) || exists(js, 0, len(x.DomainNames), x.DomainNames[js] != y.DomainNames[js])
 //@ macro dnsslProblem(p, x, y) = p.Details == "" && ((p.Field == "dnssl_lifetime" && x.Lifetime != y.Lifetime) || (p.Field == "dnssl_domain_names" && namesDiffer(x, y)))
 
+//@ macro dlWit(w, ps, x, y, i) = (x.Lifetime != y.Lifetime ==> witOK(ps, w, "dnssl_lifetime", i, 0, "")) && (namesDiffer(x, y) ==> witOK(ps, w, "dnssl_domain_names", i, 0, ""))
 //@ func checkDNSSL
+//@   ghost local wit (Array Int (Array Int (Array Int Int)))
+//@   at call push(pp, pfield, pdetails, pw, pg) when pfield != "dnssl_count": ghost.wit = wit3Set(ghost.wit, pfield, rangeindex1 + 1, 0, len(star(pp)) - 1)
+//@   loop 1 invariant W1 [C12]: forall(i, 0, rangeindex1 + 1, dlWit(ghost.wit, ps, dnsA[i], dnsB[i], i))
+//@   loop 2 invariant W2 [C12]: forall(i3, 0, rangeindex1 + 1, dlWit(ghost.wit, ps, dnsA[i3], dnsB[i3], i3))
+//@   loop 2 invariant W3 [C12]: dnsA[i].Lifetime != dnsB[i].Lifetime ==> witOK(ps, ghost.wit, "dnssl_lifetime", i, 0, "")
+//@   ensures E4 [C12]: len(dnsA) > 0 && len(dnsA) == len(dnsB) ==> forall(i, 0, len(dnsA), (dnsA[i].Lifetime != dnsB[i].Lifetime ==> hasProblem(result, "dnssl_lifetime", "")) && (namesDiffer(dnsA[i], dnsB[i]) ==> hasProblem(result, "dnssl_domain_names", "")))
 //@   requires P1: optsOK(want) && optsOK(got)
 //@   assigns new heap(corerad.problems), new mem(corerad.problem), new mem(*ndp.DNSSearchList)
 //@   loop 1 invariant D0 [C12]: 0 <= rangeindex1 + 1 && rangeindex1 + 1 <= len(dnsA) && len(dnsA) == len(dnsB) && len(dnsA) > 0 && forall(i, 0, len(dnsA), dnsA[i] != nil && dnsB[i] != nil)
